@@ -2,7 +2,7 @@
 
 use crate::fl::{hex, B};
 use crate::gen;
-use crate::model::{bits_eq, PolyK};
+use crate::model::{nums_eq, PolyK};
 use crate::num::*;
 use crate::runner::{Ctx, Outcome, Prop, Tier};
 use crate::{dispatch_deg7, fail, lib};
@@ -94,8 +94,8 @@ where
     let integ = lib!(p.integral(knot));
     let fc = integ.coeffs();
     ctx.comparisons += 1;
-    if !bits_eq(&fc[1..], &ic[1..]) {
-        fail!("Poly{n}.integral(knot): non-constant coefficients {:?} differ from indefinite()'s {:?} (must be a vertical shift only)", &fc[1..], &ic[1..]);
+    if !nums_eq(&fc[1..], &ic[1..]) {
+        fail!("Poly{n}.integral(knot): non-constant coefficients {:?} differ from indefinite()'s {:?} (must be a vertical shift only; identical numbers, the sign of a zero is not pinned)", &fc[1..], &ic[1..]);
     }
     // domain for the value clauses: every term of the integral at knot.x, a, b within 2^±900
     let in_dom = |x: f64| -> bool {
@@ -185,10 +185,10 @@ where
     let si = lib!(seg.indefinite());
     let sk = lib!(seg.integral(knot));
     ctx.comparisons += 2;
-    if si.end.to_bits() != seg.end.to_bits() || !bits_eq(&si.poly.coeffs(), &ic) {
+    if si.end.to_bits() != seg.end.to_bits() || !nums_eq(&si.poly.coeffs(), &ic) {
         fail!("Segment::indefinite: {:?} differs from end {} / piece-level {:?}", si, hex(seg.end), ic);
     }
-    if sk.end.to_bits() != seg.end.to_bits() || !bits_eq(&sk.poly.coeffs(), &fc) {
+    if sk.end.to_bits() != seg.end.to_bits() || !nums_eq(&sk.poly.coeffs(), &fc) {
         fail!("Segment::integral(knot): {:?} differs from end {} / piece-level {:?}", sk, hex(seg.end), fc);
     }
     Outcome::Pass
